@@ -31,7 +31,9 @@ func equiv(a, b reflect.Value, path string) (bool, string) {
 	if a.Type() != b.Type() {
 		return false, path + ": type"
 	}
-	if a.Type() == timePeriodT {
+	// (the allowance is for the time period of a payload; the timestamp interval of a selector has the same
+	// elements but has to arrive exactly as it was built - also if the model should use one type for both)
+	if a.Type() == timePeriodT && !strings.HasSuffix(path, ".TimestampInterval") {
 		return equivPeriod(a.Interface().(model.TimePeriodType), b.Interface().(model.TimePeriodType), path)
 	}
 	switch a.Kind() {
